@@ -26,11 +26,14 @@ const (
 	bNilMap
 	bIndex
 	bHelperErrorf
+	bPanicSlice
+	bPanicMap
+	bPanicFunc
 	bCount
 )
 
 var behavNames = []string{"pass", "Fail", "FailNow", "Error", "Errorf", "Fatal", "Fatalf", "Require", "panic(error)",
-	"panic(string)", "panic(struct)", "panic(nil)", "nil-map-write", "index-out-of-range", "helper-goroutine-Errorf"}
+	"panic(string)", "panic(struct)", "panic(nil)", "nil-map-write", "index-out-of-range", "helper-goroutine-Errorf", "panic([]string)", "panic(map)", "panic(func)"}
 
 func behavFails(b int) bool { return b != bPass }
 
